@@ -22,7 +22,7 @@ TITLE = 'Switching between rig poses and per-sensor poses never moves a sensor'
 GEN = ['RotMat']
 RULE = ('each case = a rig forest (0..4 rigs, 1..4 members each, members sensors or rigs, nesting <= 3 in quick / <= 11 in thorough, '
         'each device on at most one rig) and a trajectory over 0..4 timestamps where at each timestamp a set of roots (top rigs, '
-        'nested rigs, members, free sensors) none below another is posed; op = remove, or recover of a removed trajectory with '
+        'nested rigs, members, free sensors) none below another is posed; with probability 0.4 the Rigs object has a history (another geometry, used for a removal and a recovery, then edited through the nested dict access); op = remove, or recover of a removed trajectory with '
         'masters None or one posed member per rig; distinct non-trivial = distinct cases with at least one rig entry')
 ASSUMPTIONS = [
     'dict overwrite under conflicting sources is excluded by the quantifier (no device posed from two sources at one timestamp); '
@@ -147,7 +147,7 @@ def gen_case(rng, tier):
     # still agrees with the rig geometry
     sparse = rng.randrange(1, 10 ** 6) if op == 'recover' and rng.random() < 0.5 else None
     return {'rigs': [[r, [[m, p] for m, p in ms.items()]] for r, ms in rigs.items()], 'traj': traj, 'op': op, 'masters': masters,
-            'inplace': rng.random() < 0.5, 'sparse': sparse}
+            'inplace': rng.random() < 0.5, 'sparse': sparse, 'warm': rng.random() < 0.4}
 
 
 def cases(rng, tier):
@@ -158,9 +158,33 @@ def cases(rng, tier):
 def build(case):
     kapture = kap()
     rigs = kapture.Rigs()
-    for r, ms in case['rigs']:
-        for m, p in ms:
-            rigs[r, m] = c05.mk_pose(p)
+    if case.get('warm') and case['rigs']:
+        # history on the Rigs object: it first held ANOTHER geometry (shifted mountings, one more member), was used for a
+        # removal and a recovery, and was then brought to the geometry of the case through the nested access
+        # rigs[rig_id][sensor_id] = pose / del rigs[rig_id][sensor_id] (the idiom of kapture's own csv loader)
+        T = __import__('sys').modules['kapture.core.Trajectories']
+        for r, ms in case['rigs']:
+            for m, p in ms:
+                q = list(p)
+                q[4] = H(F(q[4]) + 1.5)
+                rigs[r, m] = c05.mk_pose(q)
+        r0 = case['rigs'][0][0]
+        rigs[r0, 'warmup_member'] = c05.mk_pose(case['rigs'][0][1][0][1])
+        warm = kapture.Trajectories()
+        for ts, d, p in case['traj']:
+            warm[ts, d] = c05.mk_pose(p)
+        try:
+            T.rigs_recover(T.rigs_remove(warm, rigs), rigs)
+        except Exception:
+            pass
+        for r, ms in case['rigs']:
+            for m, p in ms:
+                rigs[r][m] = c05.mk_pose(p)
+        del rigs[r0]['warmup_member']
+    else:
+        for r, ms in case['rigs']:
+            for m, p in ms:
+                rigs[r, m] = c05.mk_pose(p)
     traj = kapture.Trajectories()
     for ts, d, p in case['traj']:
         traj[ts, d] = c05.mk_pose(p)
